@@ -20,7 +20,7 @@ Lemma repo_checks d : checks (cfg_repo d) = true.
 Proof. reflexivity. Qed.
 Lemma repo_good d : H_live d -> good_cfg (cfg_repo d).
 Proof.
-  unfold H_live, good_cfg, cfg_repo. cbn [interval delta factor].
+  unfold H_live, good_cfg, cfg_repo, cfg_repo_eps. cbn [interval delta factor].
   unfold lock_stale_factor, lock_freshness_interval. lia.
 Qed.
 
@@ -118,10 +118,12 @@ Theorem C08_stale_recovers_refuted_zombie :
 Proof. exact stale_recovers_refuted_zombie. Qed.
 Print Assumptions C08_stale_recovers_refuted_zombie.
 
-(** The hypothesis "no waiter gives up on an empty live file" cannot be dropped for the
-    code as it is: emptyCount is cumulative over the whole Lock call, so eight gap reads
-    spread over a 40 s hold (with successful reads in between, heartbeats on time, nobody
-    killed) end with two holders. *)
+(** For the code before the emptyCount fix ([cfg_asis]: the count is cumulative over the
+    whole Lock call) the hypothesis "no waiter gives up on an empty live file" is violated
+    by harmless-looking runs: eight gap reads spread over a 40 s hold, with successful
+    reads in between, heartbeats on time, nobody killed, end with two holders.  With the
+    fix ([cfg_resets]: a successful decode resets the count) the same schedule is
+    harmless (Example [empty_count_run_with_reset] in FileLock.Refuted). *)
 Theorem C08_mutex_refuted_empty_count :
   exists s i1 i2, run cfg_asis init empty_count_run = Some s /\
     (forall p, ~ In (LKill p) empty_count_run) /\
